@@ -652,7 +652,7 @@ REUSE_SITES = {
     "drv_alg:mlr": ["MLRPredictY"],
     "drv_alg:square": ["MatrixInversion", "MatrixInversion (in place)", "MatrixLUInversion", "MatrixLUInversion (in place)"],
     "drv_alg:ols": ["OrdinaryLeastSquares"], "drv_alg:pinv": ["MatrixMoorePenrosePseudoinverse"],
-    "drv_alg:eig": ["EVectEval (eigenvalues)", "EVectEval (eigenvectors)"], "drv_alg:svd": ["SVDlapack (U)", "SVDlapack (S)", "SVDlapack (V')"],
+    "drv_alg:eig": ["EVectEval (eigenvalues)", "EVectEval (eigenvectors)"], "drv_alg:svd": ["SVDlapack (U)", "SVDlapack (S)", "SVDlapack (V')", "SVDlapack (input object used as an output)"],
     "drv_kernels:outer": ["RowColOuterProduct", "DVectorTrasposedDVectorDotProduct"],
     "drv_kernels:unary": ["MatrixTranspose", "MatrixNorm", "MatrixCovariance", "MatrixColAverage (append)", "MatrixColVar (append)", "MatrixColSDEV (append)",
                           "MatrixColRMS (append)", "MatrixRowAverage (append)"],
